@@ -6,6 +6,10 @@ Gate 2 (correspondence): `pvh enc` runs the real glwe_encrypt_sk / glwe_encrypt_
         lwe_encrypt_sk and the real glwe_decrypt / lwe_decrypt on all four back ends and prints secret,
         ciphertext, replayed error, decryption; `pdriver enc` recomputes ciphertext and decryption from
         (message, masks read from the ciphertext, error integers, secret).  Both must agree limb for limb.
+Gate 4 (key generation, `pvh rnd keys` / `pvh rndb brk_keys` vs `pdriver enc keygen`): every standard key routine (gglwe, ggsw,
+        switching / automorphism / tensor / GGLWE->GGSW / LWE switching / GLWE->LWE / LWE->GLWE / blind-rotation keys) is recomputed bit for bit
+        by the model from (secrets, words of source_xa, replayed errors) — the objects of the `…_encrypt_sk_wellformed` theorems — and an
+        independent Python oracle checks the consumers' key hypothesis (phase = s_in*gadget + e*2^.. mod 2^(b*size)) on the real key.
 Gate 3 (property oracle, independent of the model, Python big integers): exact phase of the printed
         ciphertext under the printed secret == message (at its position) + placed error (mod 1);
         |error| <= round(bound * 2^scale) on the limb target_limb_and_scale names; decryption within
@@ -369,6 +373,169 @@ def mismatch_probe(ctx, binp, drv, rng, count):
                       first, True)
 
 
+# ---------------------------------------------------------------------------------------------------------------
+# key generation (the `…_encrypt_sk_wellformed` theorems): every key routine, standard form, recomputed by the model
+KEY_LAYOUTS = ["gglwe", "ggsw", "ksk", "atk", "tsk", "g2g", "lksk", "g2l", "l2g", "brk"]
+
+
+def sigma_inv(s):
+    """X -> X^-1 on a coefficient list of length n (the embedding of LWE secrets)"""
+    n = len(s)
+    out = [0] * n
+    out[0] = s[0]
+    for i in range(1, n):
+        out[n - i] = -s[i]
+    return out
+
+
+def key_oracle(lay, c, a, cells, es, limb):
+    """the key hypothesis of the consumers, checked on the implementation's key with Python integers (independent of the model): for every
+    row r and input column i: phase under the output secret == s_in_i * 2^(b*(size-(r+1)*dsize)) + e * 2^(b*(size-1-limb))  (mod 2^(b*size)).
+    Layouts with an explicit input secret only (gglwe, ksk, lksk, g2l, l2g)."""
+    n, b, size, dnum, dsize = c["n"], c["b"], c["size"], c["dnum"], c["dsize"]
+    pad = lambda v: list(v) + [0] * (n - len(v))
+    if lay not in ("gglwe", "ksk", "lksk", "g2l", "l2g"):
+        return None
+    sk = [col[0] for col in parse_cols(a["sk"])]
+    skin = [col[0] for col in parse_cols(a["skin"])]
+    lin = parse_col(a["sklwein"])[0] if a["sklwein"] != "-" else []
+    lout = parse_col(a["sklweout"])[0] if a["sklweout"] != "-" else []
+    if lay == "gglwe":
+        msgs, sout = [col[0] for col in parse_cols(a["pt"])][:c["rank_in"]], sk
+    elif lay == "ksk":
+        msgs, sout = skin, sk
+    elif lay == "lksk":
+        msgs, sout = [sigma_inv(pad(lin))], [sigma_inv(pad(lout))]
+    elif lay == "g2l":
+        msgs, sout = skin, [sigma_inv(pad(lout))]
+    elif lay == "l2g":
+        msgs, sout = [sigma_inv(pad(lin))], sk
+    else:
+        return None
+    mod = 1 << (b * size)
+    for i, m in enumerate(msgs):
+        for r in range(dnum):
+            kk = i * dnum + r
+            ph = phase_vals(b, sout, cells[kk], n)
+            for t in range(n):
+                want = m[t] * (1 << (b * (size - (r + 1) * dsize))) + es[kk][t] * (1 << (b * (size - 1 - limb)))
+                if (ph[t] - want) % mod != 0:
+                    return (f"row {r} / input column {i}, coefficient {t}: phase {ph[t] % mod} != s_in*gadget + e = {want % mod} (mod 2^{b * size}); "
+                            f"s_in[{t}]={m[t]} e={es[kk][t]}")
+    return None
+
+
+def gen_key_case(rng, idx):
+    lay = KEY_LAYOUTS[idx % len(KEY_LAYOUTS)]
+    be = BES[(idx // len(KEY_LAYOUTS)) % 4]
+    n = rng.choice([8, 16])
+    rank = rng.range(1, 3)
+    if lay in ("tsk", "g2g") and rank == 3:
+        rank = 2
+    rank_in = rng.range(1, 3)
+    b = rng.range(2, 17) if be.startswith("fft64") else rng.choice([rng.range(2, 17), rng.range(18, 30)])
+    dsize = 1 if lay in ("lksk", "g2l", "l2g", "brk") else rng.range(1, 2)
+    dnum = rng.range(1, 3)
+    size = max(dnum * dsize + rng.range(0, 1), dsize + 1)
+    if lay == "brk":
+        size = dnum + 1
+    while b * size > 96:
+        b -= 1
+    k = (size - 1) * b + rng.range(1, b)
+    c = dict(layout=lay, be=be, n=n, b=b, k=k, kxe=k, rank=rank, rank_in=rank_in, dnum=dnum, dsize=dsize, size=size,
+             dist=rng.choice(["tp:0.5", "bp:0.5", "tp:0.25", "tp:1.0"]), p=rng.choice([-1, 3, 5, -3, 7, -5]),
+             nlin=rng.range(1, n), nlout=rng.range(1, n), sxs=rng.next(), sxa=rng.next(), sxe=rng.next())
+    if lay == "lksk" and idx % 3 == 0:
+        c["nlout"], c["nlin"] = min(c["nlin"], c["nlout"]), max(c["nlin"], c["nlout"])      # n_lwe_in > n_lwe_out, and the other way round below
+    if lay == "ksk":
+        pass
+    if lay in ("gglwe", "ggsw"):
+        cols = rank_in if lay == "gglwe" else 1
+        half = 1 << (b - 1)
+        mode = rng.range(0, 2)
+        coef = (lambda: rng.range(-3, 3)) if mode == 0 else ((lambda: rng.choice([half, -half, half - 1, 2 * half, 0, 1])) if mode == 1 else (lambda: rng.range(-(8 * half), 8 * half)))
+        c["pt"] = ";".join(",".join(str(coef()) for _ in range(n)) for _ in range(cols))
+    return c
+
+
+def key_harness_line(i, c):
+    if c["layout"] == "brk":
+        return (f"{i} brk_keys layout=brk be={c['be']} n={c['n']} nl={c['nlin']} bs=1 rank={c['rank']} b={c['b']} kbrk={c['k']} "
+                f"sxs={c['sxs']} sxa={c['sxa']} sxe={c['sxe']}")
+    s = (f"{i} keys layout={c['layout']} be={c['be']} n={c['n']} b={c['b']} k={c['k']} kxe={c['kxe']} rank={c['rank']} rank_in={c['rank_in']} "
+         f"dnum={c['dnum']} dsize={c['dsize']} p={c['p']} nlin={c['nlin']} nlout={c['nlout']} dist={c['dist']} sxs={c['sxs']} sxa={c['sxa']} sxe={c['sxe']}")
+    if "pt" in c:
+        s += f" pt={c['pt']}"
+    return s
+
+
+def keygen_gate(ctx, binp, drv, rng, count, broken):
+    cases = [gen_key_case(rng, i) for i in range(count)]
+    lines = [key_harness_line(i, c) for i, c in enumerate(cases)]
+    core = [(i, l) for i, l in enumerate(lines) if cases[i]["layout"] != "brk"]
+    brk = [(i, l) for i, l in enumerate(lines) if cases[i]["layout"] == "brk"]
+    out = {}
+    for cmd, group in ((["rnd"], core), (["rndb"], brk)):
+        rc, ho, err = ctx.run_lines(binp, cmd, [l for _, l in group], timeout=3000)
+        if rc != 0 or len(ho) != len(group):
+            broken.append(f"pvh {cmd[0]} keys failed rc={rc} lines={len(ho)}/{len(group)} {err[-300:]}")
+            return None
+        for (i, _), l in zip(group, ho):
+            out[i] = l
+    ml, idx = [], []
+    parsed = {}
+    witness = None
+    for i, c in enumerate(cases):
+        _, st, a = parse_answer(out[i])
+        if st != "ok":
+            ctx.disagreements += 1
+            if len(broken) < 20:
+                broken.append(f"key routine did not return: {lines[i][:200]} -> {out[i][:120]}")
+            continue
+        size = int(a["size"])
+        limb = target_limb_and_scale(c["kxe"], c["b"])[0]
+        ecols = parse_cols(a["e"])
+        es = [col[limb] for col in ecols]
+        parsed[i] = (a, es, limb, size)
+        es_s = ";".join(",".join(str(x) for x in e) for e in es)
+        dnum = int(a["dnum"]) if "dnum" in a else c["dnum"]
+        ml.append(f"{i} enc keygen layout={c['layout']} bits={bits_of(c['be'])} n={c['n']} b={c['b']} k={c['k']} kxe={c['kxe']} size={size} "
+                  f"rank={c['rank']} rank_in={c['rank_in']} dnum={dnum} dsize={c['dsize']} p={c['p']} sk={a['sk']} skin={a.get('skin', '-')} "
+                  f"sklwein={a.get('sklwein', '-')} sklweout={a.get('sklweout', '-')} pt={a.get('pt', '-')} xa={a['words']} es={es_s}")
+        idx.append(i)
+    rc2, mout, err2 = ctx.run_lines(drv, [], ml, timeout=3000)
+    if rc2 != 0 or len(mout) != len(ml):
+        broken.append(f"pdriver keygen failed rc={rc2} lines={len(mout)}/{len(ml)} {err2[-300:]}")
+        return None
+    agree = 0
+    cells_total = 0
+    per = {}
+    for i, ln in zip(idx, mout):
+        c = cases[i]
+        a, es, limb, size = parsed[i]
+        t = ln.split()
+        per[c["layout"]] = per.get(c["layout"], 0) + 1
+        cells_total += int(a["cells"])
+        ctx.count_case(("keygen", c["layout"], c["be"], c["n"], c["rank"], c["rank_in"], c["dnum"], c["dsize"], min(c["b"], 18) // 4,
+                        c["dist"][:2], (c["nlin"] > c["nlout"]) - (c["nlin"] < c["nlout"]) if c["layout"] == "lksk" else 0))
+        if len(t) >= 2 and t[1] == a["obj"]:
+            agree += 1
+        else:
+            ctx.disagreements += 1
+            if len(broken) < 20:
+                broken.append(f"model/implementation disagree on the generated key ({c['layout']}): {lines[i][:260]}")
+                ctx.cov.setdefault("first_disagreement", {"harness": lines[i], "impl": out[i][:1500], "model": ln[:1500]})
+        cells = [parse_cols(x) for x in a["obj"].split("/")]
+        o = key_oracle(c["layout"], dict(c, size=size), a, cells, es, limb)
+        if o is not None:
+            ctx.oracle_failures += 1
+            if witness is None:
+                witness = {"case": lines[i], "object": c["layout"], "oracle": "key hypothesis of the consumers violated by the generated key: " + o,
+                           "rerun": f"printf '%s\\n' '{lines[i]}' | harness/target/release/pvh rnd"}
+    ctx.cov["keygen"] = {"keys": len(cases), "by_layout": per, "cells": cells_total, "model_agree": agree}
+    return witness
+
+
 def run(ctx):
     rng = ctx.rng
     quick = ctx.tier == "quick"
@@ -454,6 +621,10 @@ def run(ctx):
         beyond_domain_probe(ctx, binp, drv, rng.fork(), 48 if quick else 400)
     if binp:
         mismatch_probe(ctx, binp, drv, rng.fork(), 60 if quick else 600)
+    if binp and drv:
+        kw = keygen_gate(ctx, binp, drv, rng.fork(), 400 if quick else 4000, broken)
+        if kw is not None and witness is None:
+            ctx.violation("a generated key does not satisfy the key hypothesis of its consumers (phase = s_in*gadget + bounded error)", kw, True)
     if witness is not None:
         ctx.violation("decryption of a fresh ciphertext is not message + bounded error at the message's position", witness, True)
     elif broken:
